@@ -50,6 +50,12 @@ def run(ctx, model_ok, deep=False):
                     ctx.violation("crash:%s:%s" % (opkind, site.split("<")[0]), "scenario %s crashes when allocation %d fails (%s)" % (name, k, site),
                                   replay_lines=replay_lines, detail=e[2][-1200:])
                     continue
+                if cls == "reported":
+                    for j in oom.later_accepts(lines, base, e, i):
+                        ctx.violation("wrong-accept:%s" % site.split("<")[0],
+                                      "scenario %s: allocation %d fails at %s (reported by `%s`), and afterwards `%s…` ACCEPTS a token the fault-free run rejects" % (
+                                          name, k, site, lines[i][:40], lines[j][:30]), replay_lines=replay_lines)
+                        break
                 if cls == "wrong-success":
                     got = e[1][i]
                     ctx.violation("wrong-success:%s:%s" % (opkind, site.split("<")[0]),
